@@ -11,6 +11,10 @@ EVID = os.path.join(VERIF, "evidence")
 REPLAYS = os.path.join(WORK, "replays")
 
 
+# the ASAN observer builds leak their per-program arenas on purpose; only invalid accesses count
+os.environ.setdefault("ASAN_OPTIONS", "detect_leaks=0:abort_on_error=1")
+
+
 class ToolError(Exception):
     pass
 
@@ -42,8 +46,34 @@ def cargo_env():
 _built = {}
 
 
+ASAN_TRIPLE = "x86_64-unknown-linux-gnu"
+
+
+def build_asan(package):
+    """the ASAN observer build (nightly, -Zsanitizer=address): red zones and quarantined blocks
+    of the ledger allocator are poisoned for the sanitizer, so that out-of-bounds and
+    use-after-free READS abort the process (an `abort` outcome for the laws)"""
+    key = (package, "asan")
+    if key in _built:
+        return _built[key]
+    tdir = os.path.join(HARNESS, "target", "asan")
+    env = cargo_env()
+    env["RUSTFLAGS"] = "-Zsanitizer=address"
+    t0 = time.time()
+    r = subprocess.run(["cargo", "+nightly", "build", "--offline", "-q", "-p", package, "--features", "std,asan", "--target", ASAN_TRIPLE,
+                        "--target-dir", tdir], cwd=HARNESS, env=env, stdout=subprocess.PIPE, stderr=subprocess.STDOUT, text=True)
+    if r.returncode != 0:
+        raise ToolError("ASAN build failed for %s:\n%s" % (package, r.stdout[-3000:]))
+    binp = os.path.join(tdir, ASAN_TRIPLE, "debug", package)
+    _built[key] = binp
+    log("[build] %s asan in %.1fs" % (package, time.time() - t0))
+    return binp
+
+
 def build(package, profile="debug", features=None, no_default=False, toolchain=None, extra_rustflags=None, target_dir=None):
     """cargo build of one harness package against /repo's current working tree."""
+    if profile == "asan":
+        return build_asan(package)
     key = (package, profile, tuple(features or ()), no_default, toolchain, extra_rustflags, target_dir)
     if key in _built:
         return _built[key]
